@@ -341,6 +341,9 @@ class Producer(object):
         We've determined the partition for each message group in the batch, or
         got errors for them.
         """
+        if self.stopping:
+            # stop() is cancelling the batch; it fails the requests itself
+            return
         if self.client._api_versions is None:
             # The message format depends on the produce version the broker
             # supports: wait for version discovery before building messages
@@ -587,7 +590,7 @@ class Producer(object):
             failed_payloads - list of (payload, failure) tuples
             """
             # Do we have retries left?
-            if self._req_attempts >= self._max_attempts:
+            if self._req_attempts >= self._max_attempts or self.stopping:
                 # No, no retries left, fail each failed_payload with its
                 # associated failure
                 for p, f in failed_payloads_with_errs:
